@@ -53,6 +53,7 @@ func cmdRun(args []string) {
 	sched := fs.Bool("sched", false, "")
 	verbose := fs.Bool("v", false, "print every violation candidate")
 	fuelV := fs.Bool("fuelv", false, "fuel exhaustion is a violation")
+	preempt := fs.Int("preempt", 2, "preemption bound (with -sched)")
 	fs.Parse(args)
 	t0 := time.Now()
 	l, err := engine.Load(verifDir(), *pkg)
@@ -74,7 +75,7 @@ func cmdRun(args []string) {
 		pm[k] = v
 	}
 	t1 := time.Now()
-	exp, err := l.Run(engine.RunSpec{Fn: *fn, Setup: *setup, Params: pm, Fuel: *fuel, MaxPaths: *maxPaths, Timeout: *timeout, Workers: *workers, Debug: *debug, Sched: *sched, FuelViolation: *fuelV}, *solver, 60000)
+	exp, err := l.Run(engine.RunSpec{Fn: *fn, Setup: *setup, Params: pm, Fuel: *fuel, MaxPaths: *maxPaths, Timeout: *timeout, Workers: *workers, Debug: *debug, Sched: *sched, Preempt: *preempt, FuelViolation: *fuelV}, *solver, 60000)
 	if err != nil {
 		fmt.Fprintln(os.Stderr, "run:", err)
 		os.Exit(2)
